@@ -7,6 +7,7 @@ import Grexv.Lemmas.TrieAlphabet
 import Grexv.Lemmas.Pipeline
 import Grexv.Lemmas.HopcroftMinimal2
 import Grexv.Props.C13
+import Grexv.Lemmas.EndToEnd
 
 /-!
 # C16 — every pipeline stage preserves the language; minimisation is minimal (stage theorems)
@@ -256,6 +257,20 @@ theorem from_first_candidate (cfg : Config) (env : Env) (ws : List Str) (hrep : 
   subst hm
   rw [h2]
   exact ⟨hacc, hlang⟩
+
+/-- **S8/S9 (printing)** for every well-formed expression (the shapes the elimination produces — `ofDfa_wf`) and
+plain presentation settings, the printed text is accepted by the regex parser and the compiled pattern
+matches a string of scalar values in full iff the string spells a word of the expression's symbol-level
+language: printing and re-reading by the regex crate's syntax preserves the language -/
+theorem printing_preserves_language (cap : Bool) (e : Expr) (hwf : e.WF) (s : Str) (hs : ∀ c ∈ s, Scalar c) :
+    ∃ P, Spec.parse (fmtRegExp (cfgPlain cap) e) = some (⟨false, false⟩, P) ∧
+      (Spec.fullMatch false P s = true ↔ ∃ w, e.lang w ∧ s = flat w) :=
+  printed_accepts cap e hwf s hs
+
+/-- the expression `Expression::from` returns for an acyclic automaton with plain labels is well-formed -/
+theorem elimination_result_wellformed (cap : Bool) (d : Dfa) (hd : LabelsBs d) (hdfs : DfsOK d d.dfs)
+    (hacyc : ∀ c w, Dfa.Path d c w c → w = []) : (Expr.ofDfa (cfgPlain cap) d).WF :=
+  ofDfa_wf cap d hd hdfs hacyc
 
 /-- and `Expression::from` returns that expression, or the empty literal when `b[0]` is `None` -/
 theorem ofDfa_is_b0 (cfg : Config) (d : Dfa) :
